@@ -7,6 +7,7 @@ for m in proxy/src/libs/shared-model proxy/src/libs/toolkit-core proxy/src/servi
   (cd /repo/$m && go test -json -vet=off -count=1 -timeout 25m ./... >> $out/run.json 2>>$out/err.txt)
 done
 find /repo -name policies.yaml -newer $out/err.txt -path '*streams*' 2>/dev/null
+git -C /repo checkout -- proxy/src/services/lunar-engine/streams/validation/policies.yaml proxy/src/services/lunar-engine/routing/policies.yaml 2>/dev/null; rm -f /repo/proxy/src/services/lunar-engine/streams/policies.yaml
 git -C /repo status --short | head
 python3 - $out/run.json <<'PY'
 import json,sys
